@@ -6,5 +6,236 @@ import BiscuitModel.Proofs.Expr
 import BiscuitModel.Proofs.Authorizer
 
 namespace Biscuit
+open Wire
+
+/-! ### Resolution never panics in the repaired code -/
+
+theorem symStrGo_false_no_panic (t : SymTable) (i : Nat) : (symStrGo false t i).isPanic = false := by
+  simp [symStrGo, Outcome.isPanic]
+
+theorem mapMOutcome_no_panic {α β : Type} (f : α → Outcome β) (hf : ∀ a, (f a).isPanic = false) :
+    ∀ l : List α, (mapMOutcome f l).isPanic = false := by
+  intro l
+  induction l with
+  | nil => rfl
+  | cons x xs ih =>
+    simp only [mapMOutcome]
+    exact Outcome.isPanic_bind (hf x) fun _ => Outcome.isPanic_bind ih fun _ => rfl
+
+theorem resolveAtomL_no_panic (t : SymTable) (a : IAtom) : (resolveAtomL false t a).isPanic = false := by
+  cases a <;> simp only [resolveAtomL] <;>
+    first
+    | rfl
+    | exact Outcome.isPanic_bind (symStrGo_false_no_panic t _) fun _ => rfl
+
+theorem resolveTermL_no_panic (t : SymTable) (x : ITerm) : (resolveTermL false t x).isPanic = false := by
+  cases x with
+  | atom a =>
+    cases a <;> simp only [resolveTermL] <;>
+      first
+      | exact Outcome.isPanic_bind (symStrGo_false_no_panic t _) fun _ => rfl
+      | exact Outcome.isPanic_bind (resolveAtomL_no_panic t _) fun _ => rfl
+  | set l =>
+    simp only [resolveTermL]
+    exact Outcome.isPanic_bind (mapMOutcome_no_panic _ (resolveAtomL_no_panic t) l) fun _ => rfl
+
+theorem resolvePredL_no_panic (t : SymTable) (q : IPred) : (resolvePredL false t q).isPanic = false := by
+  unfold resolvePredL
+  exact Outcome.isPanic_bind (symStrGo_false_no_panic t _) fun _ =>
+    Outcome.isPanic_bind (mapMOutcome_no_panic _ (resolveTermL_no_panic t) _) fun _ => rfl
+
+theorem resolveFactL_no_panic (t : SymTable) (q : IPred) : (resolveFactL false t q).isPanic = false := by
+  unfold resolveFactL
+  exact Outcome.isPanic_bind (resolvePredL_no_panic t q) fun _ => rfl
+
+theorem resolveOpL_no_panic (t : SymTable) (o : IOp) : (resolveOpL false t o).isPanic = false := by
+  cases o with
+  | value x =>
+    simp only [resolveOpL]
+    exact Outcome.isPanic_bind (resolveTermL_no_panic t x) fun _ => rfl
+  | unary k => rfl
+  | binary k => rfl
+
+theorem resolveRuleL_no_panic (t : SymTable) (r : IRule) : (resolveRuleL false t r).isPanic = false := by
+  unfold resolveRuleL
+  exact Outcome.isPanic_bind (resolvePredL_no_panic t _) fun _ =>
+    Outcome.isPanic_bind (mapMOutcome_no_panic _ (resolvePredL_no_panic t) _) fun _ =>
+    Outcome.isPanic_bind
+      (mapMOutcome_no_panic _ (fun e => mapMOutcome_no_panic _ (resolveOpL_no_panic t) e) _) fun _ => rfl
+
+theorem resolveCheckL_no_panic (t : SymTable) (c : ICheck) : (resolveCheckL false t c).isPanic = false := by
+  unfold resolveCheckL
+  exact Outcome.isPanic_bind (mapMOutcome_no_panic _ (resolveRuleL_no_panic t) _) fun _ => rfl
+
+theorem resolveBlockL_no_panic (t : SymTable) (m : BlockMsg) : (resolveBlockL false t m).isPanic = false := by
+  unfold resolveBlockL
+  exact Outcome.isPanic_bind (mapMOutcome_no_panic _ (resolveFactL_no_panic t) _) fun _ =>
+    Outcome.isPanic_bind (mapMOutcome_no_panic _ (resolveRuleL_no_panic t) _) fun _ =>
+    Outcome.isPanic_bind (mapMOutcome_no_panic _ (resolveCheckL_no_panic t) _) fun _ => rfl
+
+theorem resolveTokenL_no_panic (msgs : List BlockMsg) : (resolveTokenL false msgs).isPanic = false := by
+  unfold resolveTokenL
+  exact mapMOutcome_no_panic _ (resolveBlockL_no_panic _) msgs
+
+/-! ### Proof check -/
+
+theorem verifyProofGo_false_no_panic (S : SigScheme) (current : Bytes) (e : BiscuitMsg) :
+    (verifyProofGo false S current e).isPanic = false := by
+  unfold verifyProofGo
+  split
+  · split <;> rfl
+  · rfl
+
+/-! ### Engine: a panic of the run is a panic of an expression -/
+
+section Engine
+variable {V E : Type} [DecidableEq V]
+
+omit [DecidableEq V] in
+theorem checkExprs_ne_panic (ev : Bindings V → E → Outcome Bool)
+    (hev : ∀ σ e, (ev σ e).isPanic = false) (σ : Bindings V) (site : PanicSite) :
+    ∀ es : List E, checkExprs ev σ es ≠ .panic site := by
+  intro es
+  induction es with
+  | nil => intro h; cases h
+  | cons e es ih =>
+    intro h
+    simp only [checkExprs] at h
+    have he := hev σ e
+    split at h
+    · exact ih h
+    · cases h
+    · cases h
+    · next s hs => rw [hs] at he; cases he
+
+theorem applyCombos_ne_panic (ev : Bindings V → E → Outcome Bool)
+    (hev : ∀ σ e, (ev σ e).isPanic = false) (r : Rule V E) (site : PanicSite) :
+    ∀ (cs : List (Bindings V)) (acc out : List (Fact V)),
+    applyCombos ev r cs acc ≠ (out, some (.panic site)) := by
+  intro cs
+  induction cs with
+  | nil => intro acc out h; simp [applyCombos] at h
+  | cons σ rest ih =>
+    intro acc out h
+    simp only [applyCombos] at h
+    split at h
+    · simp only [Prod.mk.injEq, Option.some.injEq] at h
+      cases h.2
+    · next s hs => exact checkExprs_ne_panic ev hev σ s _ hs
+    · exact ih _ _ h
+    · split at h
+      · simp only [Prod.mk.injEq, Option.some.injEq] at h
+        cases h.2
+      · exact ih _ _ h
+
+theorem stepAll_ne_panic (ev : Bindings V → E → Outcome Bool)
+    (hev : ∀ σ e, (ev σ e).isPanic = false) (S : List (Fact V)) (site : PanicSite) :
+    ∀ (P : List (Rule V E)) (acc out : List (Fact V)),
+    stepAll ev S P acc ≠ (out, some (.panic site)) := by
+  intro P
+  induction P with
+  | nil => intro acc out h; simp [stepAll] at h
+  | cons r rs ih =>
+    intro acc out h
+    simp only [stepAll] at h
+    split at h
+    · exact ih _ _ h
+    · next acc' e' hr =>
+      simp only [Prod.mk.injEq, Option.some.injEq] at h
+      obtain ⟨_, rfl⟩ := h
+      exact applyCombos_ne_panic ev hev r site _ _ _ hr
+
+theorem run_ne_panic (ev : Bindings V → E → Outcome Bool)
+    (hev : ∀ σ e, (ev σ e).isPanic = false) (mf : Nat) (P : List (Rule V E)) (site : PanicSite) :
+    ∀ (mi : Nat) (F W : List (Fact V)), run ev mf P mi F ≠ (W, some (.panic site)) := by
+  intro mi
+  induction mi with
+  | zero => intro F W h; simp [run] at h
+  | succ n ih =>
+    intro F W h
+    simp only [run] at h
+    split at h
+    · next out e hst =>
+      simp only [Prod.mk.injEq, Option.some.injEq] at h
+      obtain ⟨_, rfl⟩ := h
+      exact stepAll_ne_panic ev hev F site _ _ _ hst
+    · split at h
+      · simp only [Prod.mk.injEq, Option.some.injEq] at h
+        cases h.2
+      · split at h
+        · simp at h
+        · exact ih _ _ h
+
+end Engine
+
+/-! ### Authorizer -/
+
+theorem evalBool_no_panic (cfg : EvalCfg) (hs : cfg.sets = .loops) (σ : Bindings Val) (e : Expr) :
+    (evalBool cfg σ e).isPanic = false := by
+  unfold evalBool
+  exact Outcome.isPanic_bind (eval_no_panic' cfg hs σ e) fun _ => rfl
+
+theorem runWorld_ne_panic (cfg : EvalCfg) (hs : cfg.sets = .loops) (lim : Limits) (w w' : World)
+    (site : PanicSite) : runWorld cfg lim w ≠ (w', some (.panic site)) := by
+  intro h
+  simp only [runWorld, Prod.mk.injEq] at h
+  exact run_ne_panic (evalBool cfg) (evalBool_no_panic cfg hs) lim.maxFacts w.rules site lim.maxIter
+    w.facts _ (Prod.ext rfl h.2)
+
+theorem evalBlock_ne_panic (cfg : EvalCfg) (hs : cfg.sets = .loops) (lim : Limits) (base : List DFact)
+    (b : Block) (idx : Nat) (site : PanicSite) : evalBlock cfg lim base b idx ≠ .error (.panic site) := by
+  intro h
+  simp only [evalBlock] at h
+  split at h
+  · next w' e hr =>
+    cases h
+    exact runWorld_ne_panic cfg hs _ _ _ site hr
+  · cases h
+
+theorem blockPhase_ne_panic (cfg : EvalCfg) (hs : cfg.sets = .loops) (lim : Limits) (base : List DFact)
+    (site : PanicSite) :
+    ∀ (bs : List Block) (idx : Nat) (acc : List CheckId),
+    blockPhase cfg lim base bs idx acc ≠ .error (.panic site) := by
+  intro bs
+  induction bs with
+  | nil => intro idx acc h; cases h
+  | cons b bs ih =>
+    intro idx acc h
+    simp only [blockPhase] at h
+    split at h
+    · next e he =>
+      cases h
+      exact evalBlock_ne_panic cfg hs lim base b idx site he
+    · exact ih _ _ h
+
+theorem authorityPhase_ne_panic (cfg : EvalCfg) (hs : cfg.sets = .loops) (A : Block) (s : AuthState)
+    (w : World) (site : PanicSite) : authorityPhase cfg A s ≠ (w, .error (.panic site)) := by
+  intro h
+  simp only [authorityPhase] at h
+  split at h
+  · next w2 e hr =>
+    simp only [Prod.mk.injEq, Except.error.injEq] at h
+    obtain ⟨_, rfl⟩ := h
+    exact runWorld_ne_panic cfg hs _ _ _ site hr
+  · simp at h
+
+theorem authorizeWith_ne_panic (cfg : EvalCfg) (hs : cfg.sets = .loops) (p : Bool) (tok : Token)
+    (s : AuthState) (site : PanicSite) : (authorizeWith cfg p tok s).2 ≠ .runError (.panic site) := by
+  intro h
+  simp only [authorizeWith] at h
+  split at h
+  · next w e ha =>
+    simp only [Verdict.runError.injEq] at h
+    subst h
+    exact authorityPhase_ne_panic cfg hs _ _ _ site ha
+  · next w ap ha =>
+    split at h
+    · next e hb =>
+      simp only [Verdict.runError.injEq] at h
+      subst h
+      exact blockPhase_ne_panic cfg hs _ _ site _ _ _ hb
+    · split at h
+      · cases h
+      · exact policyVerdict_ne_runError _ _ h
 
 end Biscuit
